@@ -376,7 +376,7 @@ func (adb *AccountsDB) loadDataTrie(accountHandler baseAccountHandler) error {
 	}
 
 	dataTrie := adb.dataTries.Get(accountHandler.AddressBytes())
-	if dataTrie != nil {
+	if dataTrie != nil && isSameRootHash(dataTrie, accountHandler.GetRootHash()) {
 		accountHandler.SetDataTrie(dataTrie)
 		return nil
 	}
@@ -389,6 +389,16 @@ func (adb *AccountsDB) loadDataTrie(accountHandler baseAccountHandler) error {
 	accountHandler.SetDataTrie(dataTrie)
 	adb.dataTries.Put(accountHandler.AddressBytes(), dataTrie)
 	return nil
+}
+
+// isSameRootHash returns true if the cached data trie still is the one the account's root hash refers to
+func isSameRootHash(dataTrie data.Trie, rootHash []byte) bool {
+	cachedRootHash, err := dataTrie.RootHash()
+	if err != nil {
+		return false
+	}
+
+	return bytes.Equal(cachedRootHash, rootHash)
 }
 
 // SaveDataTrie is used to save the data trie (not committing it) and to recompute the new Root value
